@@ -239,7 +239,7 @@ func c28Scenarios(thorough bool) []driver.Scenario {
 	add := func(p c28Params, bound int) {
 		out = append(out, driver.Scenario{
 			Name:   fmt.Sprintf("c28/script=%s/writes=%d/delay_bounded=%v/aged=%d", p.Script, p.Writes, p.Delay, p.Aged),
-			Params: p, Cfg: vrt.Config{Horizon: int64(time.Hour), MaxSteps: 5000000, DelayBounded: p.Delay},
+			Params: p, Cfg: vrt.Config{Horizon: int64(time.Hour), MaxSteps: 5000000, DelayBounded: p.Delay, TimersFirst: p.Delay},
 			Body: c28Body(p), Check: c28Check(p), Bound: max(bound, 0), Sequential: bound < 0,
 		})
 	}
